@@ -3868,7 +3868,7 @@ void ZSTDv07_findFrameSizeInfoLegacy(const void *src, size_t srcSize, size_t* cS
 {
     const BYTE* ip = (const BYTE*)src;
     size_t remainingSize = srcSize;
-    size_t nbBlocks = 0;
+    unsigned long long bound = 0;
 
     /* check */
     if (srcSize < ZSTDv07_frameHeaderSize_min+ZSTDv07_blockHeaderSize) {
@@ -3914,11 +3914,15 @@ void ZSTDv07_findFrameSizeInfoLegacy(const void *src, size_t srcSize, size_t* cS
 
         ip += cBlockSize;
         remainingSize -= cBlockSize;
-        nbBlocks++;
+        /* an uncompressed block is copied, and an RLE block generated, whatever its size (up to the 19 bits of the size field) */
+        {   size_t const regenSize = (blockProperties.blockType == bt_raw) ? cBlockSize
+                                   : (blockProperties.blockType == bt_rle) ? blockProperties.origSize : 0;
+            bound += (regenSize > ZSTDv07_BLOCKSIZE_ABSOLUTEMAX) ? regenSize : ZSTDv07_BLOCKSIZE_ABSOLUTEMAX;
+        }
     }
 
     *cSize = ip - (const BYTE*)src;
-    *dBound = nbBlocks * ZSTDv07_BLOCKSIZE_ABSOLUTEMAX;
+    *dBound = bound;
 }
 
 /*_******************************
